@@ -135,7 +135,7 @@ PROPS["C01"] = dict(
     assumptions=_SIM_ASSUME,
     stages=[dict(name="sim", flavour="release", **SIM), dict(name="sim-asan", flavour="asan", shards=8, tiers=["thorough"], args={"cases": 6}, **SIM)],
     floors={"quick": {"cases_with_commits": 60, "blocks_handed_to_storage": 2000, "byzantine_messages_accepted_total": 200, "cases_hidden-commit": 10, "cases_equivocating-leader": 10},
-            "thorough": {"cases_with_commits": 1000}},
+            "thorough": {"cases_with_commits": 40}},
 )
 
 PROPS["C02"]["stages"].append(dict(name="sim-history", flavour="release", **SIM))
@@ -157,7 +157,7 @@ PROPS["C03"] = dict(
     assumptions=_SIM_ASSUME + ["crash points = durable-write calls (set_state, queue_next_block) of the executed scenarios; scenarios themselves are sampled"],
     stages=[dict(name="sim-crash", flavour="release", **SIM)],
     floors={"quick": {"crash_points_exercised": 200, "crash_with_write_applied": 80, "crash_with_write_not_applied": 80, "commit_votes_checked": 2000, "timeout_votes_checked": 2000},
-            "thorough": {"crash_points_exercised": 3000}},
+            "thorough": {"crash_points_exercised": 400}},
 )
 
 PROPS["C05"] = dict(
@@ -187,7 +187,7 @@ PROPS["C06"] = dict(
     "needed is recorded in the evidence (calibration: max observed on the unchanged tree is far below the bound).",
     assumptions=_SIM_ASSUME + ["liveness is decided only in its bounded virtual-time form; real-time liveness under the production scheduler/network is out of reach of this family"],
     stages=[dict(name="sim-heal", flavour="release", **SIM)],
-    floors={"quick": {"fair_suffixes_that_progressed": 80, "cases_with_commits": 80}, "thorough": {"fair_suffixes_that_progressed": 1000}},
+    floors={"quick": {"fair_suffixes_that_progressed": 80, "cases_with_commits": 80}, "thorough": {"fair_suffixes_that_progressed": 150}},
 )
 
 CONC = dict(crate="conc")
